@@ -211,6 +211,158 @@ pub fn c02_s5_two_collectors_after_observation() {
     std::mem::forget(h);
 }
 
+/// diagnostic twin of S5: reachability witnesses after every stage
+#[cfg_attr(kani, kani::proof, kani::unwind(6))]
+pub fn c02_s5_diag() {
+    let h = hist(vec![1.0]);
+    register(&h, 8);
+    vcover!(true, "diag: after register");
+    let a = small();
+    h.core.observe(a);
+    vcover!(true, "diag: after pre-observe");
+    vs::begin_threads();
+    vs::start_thread();
+    let s1 = collect(&h);
+    vcover!(true, "diag: after collect 1");
+    vcover!(s1.cnt == 1, "diag: collect 1 saw the observation");
+    vs::start_thread();
+    let s2 = collect(&h);
+    vcover!(true, "diag: after collect 2");
+    vcover!(s2.cnt == 1, "diag: collect 2 saw the observation");
+    vs::assume_consistent();
+    vcover!(true, "diag: after assume_consistent");
+    let f1 = describes(&s1, &[a], &[true], 1.0, f64::NAN);
+    let f2 = describes(&s2, &[a], &[true], 1.0, f64::NAN);
+    vcover!(f1, "diag: f1");
+    vcover!(f2, "diag: f2");
+    vcover!(h.get_sample_count() == 1, "diag: total count 1");
+    std::mem::forget(h);
+}
+
+/// diagnostic: two collects, no observation at all
+#[cfg_attr(kani, kani::proof, kani::unwind(6))]
+pub fn c02_diag_a() {
+    let h = hist(vec![1.0]);
+    register(&h, 8);
+    vs::begin_threads();
+    vs::start_thread();
+    let s1 = collect(&h);
+    vcover!(s1.cnt == 0, "diag a: after collect 1");
+    vs::start_thread();
+    let s2 = collect(&h);
+    vcover!(s2.cnt == 0, "diag a: after collect 2");
+    std::mem::forget(h);
+}
+/// diagnostic: plain (MODE 0) sequential observe, proto, proto without the thread protocol
+#[cfg_attr(kani, kani::proof, kani::unwind(6))]
+pub fn c02_diag_b() {
+    let h = hist(vec![1.0]);
+    h.core.observe(1.0);
+    let p1 = h.core.proto();
+    vcover!(p1.get_sample_count() == 1, "diag b: after proto 1");
+    let p2 = h.core.proto();
+    vcover!(p2.get_sample_count() == 1, "diag b: after proto 2");
+    std::mem::forget((p1, p2));
+    std::mem::forget(h);
+}
+/// diagnostic: register + two collects in ONE thread after an observation
+#[cfg_attr(kani, kani::proof, kani::unwind(6))]
+pub fn c02_diag_c() {
+    let h = hist(vec![1.0]);
+    register(&h, 8);
+    h.core.observe(1.0);
+    vs::begin_threads();
+    vs::start_thread();
+    let s1 = collect(&h);
+    vcover!(s1.cnt == 1, "diag c: after collect 1");
+    let s2 = collect(&h);
+    vcover!(s2.cnt == 1, "diag c: after collect 2");
+    std::mem::forget(h);
+}
+
+/// diagnostic: like diag_a but both collects in thread 1
+#[cfg_attr(kani, kani::proof, kani::unwind(6))]
+pub fn c02_diag_d() {
+    let h = hist(vec![1.0]);
+    register(&h, 8);
+    vs::begin_threads();
+    vs::start_thread();
+    let s1 = collect(&h);
+    vcover!(s1.cnt == 0, "diag d: after collect 1");
+    let s2 = collect(&h);
+    vcover!(s2.cnt == 0, "diag d: after collect 2");
+    std::mem::forget(h);
+}
+/// diagnostic: like diag_a with finer witnesses in thread 2
+#[cfg_attr(kani, kani::proof, kani::unwind(6))]
+pub fn c02_diag_e() {
+    let h = hist(vec![1.0]);
+    register(&h, 8);
+    vs::begin_threads();
+    vs::start_thread();
+    let s1 = collect(&h);
+    vs::start_thread();
+    vcover!(true, "diag e: thread 2 started");
+    vs::sched_point();
+    vcover!(true, "diag e: thread 2 after sched_point");
+    let g = h.core.collect_lock.lock();
+    vcover!(true, "diag e: thread 2 took the lock");
+    drop(g);
+    let (idx, n) = h.core.shard_and_count.flip(Ordering::AcqRel);
+    vcover!(true, "diag e: thread 2 flipped");
+    let r = h.core.shards[usize::from(idx)].count.compare_exchange_weak(n, 0, Ordering::Acquire, Ordering::Acquire);
+    vcover!(r.is_ok(), "diag e: thread 2 CAS ok");
+    vcover!(r.is_err(), "diag e: thread 2 CAS failed");
+    let _ = s1;
+    std::mem::forget(h);
+}
+
+/// diagnostic: thread 2 executes proto's body step by step
+#[cfg_attr(kani, kani::proof, kani::unwind(6), kani::stub(std::alloc::dealloc, dealloc_noop))]
+pub fn c02_diag_f() {
+    let h = hist(vec![1.0]);
+    register(&h, 8);
+    vs::begin_threads();
+    vs::start_thread();
+    let s1 = collect(&h);
+    vs::start_thread();
+    let core = &h.core;
+    let g = core.collect_lock.lock().expect("Lock poisoned");
+    let (cold_i, overall) = core.shard_and_count.flip(Ordering::AcqRel);
+    let cold = &core.shards[usize::from(cold_i)];
+    let hot = &core.shards[usize::from(cold_i.inverse())];
+    while cold.count.compare_exchange_weak(overall, 0, Ordering::Acquire, Ordering::Acquire).is_err() {}
+    vcover!(true, "diag f: after wait loop");
+    let cs = cold.sum.swap(0.0, Ordering::AcqRel);
+    vcover!(true, "diag f: after sum swap");
+    let mut hp = proto::Histogram::default();
+    hp.set_sample_sum(cs);
+    hp.set_sample_count(overall);
+    vcover!(true, "diag f: after default/set");
+    let mut buckets = Vec::with_capacity(core.upper_bounds.len());
+    vcover!(true, "diag f: after with_capacity");
+    let c0 = cold.buckets[0].swap(0, Ordering::AcqRel);
+    vcover!(true, "diag f: after bucket swap");
+    hot.buckets[0].inc_by(c0);
+    vcover!(true, "diag f: after hot bucket add");
+    let mut b = proto::Bucket::default();
+    b.set_cumulative_count(c0);
+    b.set_upper_bound(core.upper_bounds[0]);
+    buckets.push(b);
+    vcover!(true, "diag f: after push");
+    hp.set_bucket(buckets);
+    vcover!(true, "diag f: after set_bucket");
+    hot.count.inc_by(overall);
+    vcover!(true, "diag f: after hot count");
+    hot.sum.inc_by(cs);
+    vcover!(true, "diag f: after hot sum");
+    drop(g);
+    vcover!(true, "diag f: after unlock");
+    let _ = s1;
+    std::mem::forget(hp);
+    std::mem::forget(h);
+}
+
 /// C03: T1 observe(a) ‖ T2 local batch {b, c} flush ‖ T3 three collects; then quiescent checks.
 #[cfg_attr(kani, kani::proof, kani::unwind(6))]
 pub fn c03_batch_flush_three_collects() {
@@ -252,6 +404,7 @@ pub fn dispatch(name: &str) -> Option<fn()> {
         "c02_s3_two_observers_vs_collect" => c02_s3_two_observers_vs_collect,
         "c02_s4_two_collectors" => c02_s4_two_collectors,
         "c02_s5_two_collectors_after_observation" => c02_s5_two_collectors_after_observation,
+        "c02_s5_diag" => c02_s5_diag,
         "c03_batch_flush_three_collects" => c03_batch_flush_three_collects,
         _ => return None,
     })
